@@ -6,6 +6,11 @@
 //! (b) the five tables reachable through `Dictionary::get_font_encoding` x 256 bytes: decoding is
 //!     total, decode(encode(decode(b))) == decode(b), and the printable-ASCII and Latin-1 portions
 //!     of WinAnsi, MacRoman and PDFDoc agree with the published tables written out below.
+//! (a') long text strings (an astral character at every offset of every block size below the
+//!     bound, three encoders), long ill-formed strings (totality), two strings one after the other.
+//! (b') long byte strings through each table (decode is bytewise; block sizes 64..4096 and 2^16).
+//! (c'') long shown strings, 1000 groups, fonts with further entries that agree with the encoding
+//!     (widths, consistent complete / partial ToUnicode), documents extracted one after the other.
 //! (c) extraction: `Document::extract_text` on documents that show text with Tj / TJ through a
 //!     font with `/Encoding <name>`, before and after save+load in both cross-reference formats.
 use lopdf::content::{Content, Operation};
@@ -373,6 +378,132 @@ fn font_dict(encoding: &str) -> Dictionary {
     font
 }
 
+/// Ways of writing a simple font that uses a predefined encoding. All of them denote the same
+/// text for every code of the table: the extra entries either do not concern text (widths,
+/// descriptor) or are a /ToUnicode CMap that agrees with the table on every code it lists
+/// (complete, or partial as producers write it for the glyphs used so far).
+const FONT_VARIANTS: [&str; 9] =
+    ["plain", "widths", "tounicode_full", "tounicode_digits_or_first10", "tounicode_even", "tounicode_odd", "tounicode_one", "tounicode_ranges", "tounicode_empty"];
+
+fn variant_of(s: &str) -> &'static str {
+    FONT_VARIANTS.iter().copied().find(|v| *v == s).unwrap_or("plain")
+}
+
+/// The table as (code, UTF-16 unit) pairs, read through the public path with a plain font.
+fn table_cells(table: &str) -> Vec<(u8, u16)> {
+    with_encoding(table, |enc| {
+        (0..=255u8)
+            .filter_map(|b| match dec(enc, &[b]) {
+                Ok(s) => {
+                    let u: Vec<u16> = s.encode_utf16().collect();
+                    if u.len() == 1 {
+                        Some((b, u[0]))
+                    } else {
+                        None
+                    }
+                }
+                Err(_) => None,
+            })
+            .collect()
+    })
+    .unwrap_or_default()
+}
+
+/// A ToUnicode CMap (one-byte code space) that lists exactly `pairs`, in the layout of ISO 32000-1
+/// 9.10.3 (sections of at most 100 entries). `ranges`: consecutive runs are written as bfrange.
+fn to_unicode_cmap(pairs: &[(u8, u16)], ranges: bool) -> Vec<u8> {
+    let mut body = String::new();
+    if ranges {
+        let mut runs: Vec<(u8, u8, u16)> = vec![];
+        for &(c, u) in pairs {
+            let extend = match runs.last() {
+                Some(&(lo, hi, u0)) => hi as u16 + 1 == c as u16 && u0 + (c - lo) as u16 == u && (u0 >> 8) == (u >> 8),
+                None => false,
+            };
+            if extend {
+                runs.last_mut().unwrap().1 = c;
+            } else {
+                runs.push((c, c, u));
+            }
+        }
+        for chunk in runs.chunks(100) {
+            body.push_str(&format!("{} beginbfrange\n", chunk.len()));
+            for (lo, hi, u) in chunk {
+                body.push_str(&format!("<{:02X}> <{:02X}> <{:04X}>\n", lo, hi, u));
+            }
+            body.push_str("endbfrange\n");
+        }
+    } else {
+        for chunk in pairs.chunks(100) {
+            body.push_str(&format!("{} beginbfchar\n", chunk.len()));
+            for (c, u) in chunk {
+                body.push_str(&format!("<{:02X}> <{:04X}>\n", c, u));
+            }
+            body.push_str("endbfchar\n");
+        }
+        if pairs.is_empty() {
+            body.push_str("0 beginbfchar\nendbfchar\n");
+        }
+    }
+    format!(
+        "/CIDInit /ProcSet findresource begin\n12 dict begin\nbegincmap\n/CIDSystemInfo\n<< /Registry (Adobe)\n/Ordering (UCS)\n/Supplement 0\n>> def\n/CMapName /Adobe-Identity-UCS def\n/CMapType 2 def\n1 begincodespacerange\n<00> <FF>\nendcodespacerange\n{}endcmap\nCMapName currentdict /CMap defineresource pop\nend\nend",
+        body
+    )
+    .into_bytes()
+}
+
+/// The pairs the variant's CMap lists (None: the variant has no /ToUnicode).
+fn variant_pairs(table: &str, variant: &str) -> Option<Vec<(u8, u16)>> {
+    let cells = table_cells(table);
+    let printable: Vec<(u8, u16)> = cells.iter().cloned().filter(|(b, _)| *b >= 0x20).collect();
+    match variant {
+        "tounicode_full" | "tounicode_ranges" => Some(cells),
+        "tounicode_digits_or_first10" => {
+            let digits: Vec<(u8, u16)> = cells.iter().cloned().filter(|(b, _)| (0x30..=0x39).contains(b)).collect();
+            Some(if digits.len() == 10 { digits } else { printable.into_iter().take(10).collect() })
+        }
+        "tounicode_even" => Some(printable.into_iter().step_by(2).collect()),
+        "tounicode_odd" => Some(printable.into_iter().skip(1).step_by(2).collect()),
+        "tounicode_one" => Some(printable.into_iter().skip(3).take(1).collect()),
+        "tounicode_empty" => Some(vec![]),
+        _ => None,
+    }
+}
+
+/// Adds the font of the given variant to `doc` and returns its dictionary (with /ToUnicode
+/// pointing at a stream object of `doc` where the variant has one).
+fn font_variant(doc: &mut Document, table: &str, variant: &str) -> Dictionary {
+    let mut font = font_dict(table);
+    if variant == "widths" {
+        font.set("FirstChar", Object::Integer(0));
+        font.set("LastChar", Object::Integer(255));
+        font.set("Widths", Object::Array((0..256).map(|_| Object::Integer(600)).collect()));
+        let mut fd = Dictionary::new();
+        fd.set("Type", Object::Name(b"FontDescriptor".to_vec()));
+        fd.set("FontName", Object::Name(b"Courier".to_vec()));
+        fd.set("Flags", Object::Integer(33));
+        let id = doc.add_object(fd);
+        font.set("FontDescriptor", Object::Reference(id));
+    }
+    if let Some(pairs) = variant_pairs(table, variant) {
+        let id = doc.add_object(Stream::new(Dictionary::new(), to_unicode_cmap(&pairs, variant == "tounicode_ranges")));
+        font.set("ToUnicode", Object::Reference(id));
+    }
+    font
+}
+
+/// Decode `bytes` with the encoding that get_font_encoding returns for the font variant.
+fn dec_variant(table: &str, variant: &str, bytes: &[u8]) -> Result<String, String> {
+    let mut doc = Document::with_version("1.5");
+    let font = font_variant(&mut doc, table, variant);
+    let enc = match util::guard(|| font.get_font_encoding(&doc)) {
+        Ok(Ok(e)) => e,
+        Ok(Err(e)) => return Err(format!("get_font_encoding error: {}", e)),
+        Err(p) => return Err(format!("get_font_encoding {}", p)),
+    };
+    dec(&enc, bytes)
+}
+
 fn with_encoding<T>(table: &str, f: impl FnOnce(&Encoding) -> T) -> Result<T, String> {
     let doc = Document::with_version("1.5");
     let font = font_dict(table);
@@ -531,17 +662,39 @@ struct Block {
     /// false: `(..) Tj`, true: `[(..)] TJ`
     tj_array: bool,
     hex: bool,
+    /// TJ only: the bytes are shown as this many strings (0 and 1: one string) with a number
+    /// between neighbours (-100 <= number <= 100: extract_text adds nothing for those)
+    pieces: usize,
+}
+
+/// The Tj / TJ operation that shows the block.
+fn show_operation(b: &Block) -> Operation {
+    let fmt = if b.hex { StringFormat::Hexadecimal } else { StringFormat::Literal };
+    if !b.tj_array {
+        return Operation::new("Tj", vec![Object::String(b.bytes.clone(), fmt)]);
+    }
+    let k = b.pieces.max(1).min(b.bytes.len().max(1));
+    let kern = [Object::Integer(-100), Object::Integer(0), Object::Real(-20.5), Object::Integer(50), Object::Real(0.25), Object::Integer(100)];
+    let mut arr = vec![];
+    let n = b.bytes.len();
+    for i in 0..k {
+        if i > 0 {
+            arr.push(kern[(i - 1) % kern.len()].clone());
+        }
+        arr.push(Object::String(b.bytes[i * n / k..(i + 1) * n / k].to_vec(), fmt));
+    }
+    Operation::new("TJ", vec![Object::Array(arr)])
 }
 
 fn blocks_to_json(blocks: &[Block]) -> Value {
-    Value::Array(blocks.iter().map(|b| json!({"bytes": hex(&b.bytes), "tj_array": b.tj_array, "hex": b.hex})).collect())
+    Value::Array(blocks.iter().map(|b| json!({"bytes": hex(&b.bytes), "tj_array": b.tj_array, "hex": b.hex, "pieces": b.pieces})).collect())
 }
 
 fn blocks_from_json(v: &Value) -> Vec<Block> {
     v.as_array()
         .map(|a| {
             a.iter()
-                .map(|b| Block { bytes: unhex(b["bytes"].as_str().unwrap_or("")), tj_array: b["tj_array"].as_bool().unwrap_or(false), hex: b["hex"].as_bool().unwrap_or(false) })
+                .map(|b| Block { bytes: unhex(b["bytes"].as_str().unwrap_or("")), tj_array: b["tj_array"].as_bool().unwrap_or(false), hex: b["hex"].as_bool().unwrap_or(false), pieces: b["pieces"].as_u64().unwrap_or(0) as usize })
                 .collect()
         })
         .unwrap_or_default()
@@ -549,10 +702,11 @@ fn blocks_from_json(v: &Value) -> Vec<Block> {
 
 /// A one-page document in the shape of lopdf's own `create_document_with_texts`, with one
 /// `BT /F1 12 Tf 100 600 Td <show> ET` group per block and a font that names the encoding.
-fn text_doc(table: &str, blocks: &[Block], compress: bool) -> Document {
+fn text_doc(table: &str, variant: &str, blocks: &[Block], compress: bool) -> Document {
     let mut doc = Document::with_version("1.5");
     let pages_id = doc.new_object_id();
-    let font_id = doc.add_object(font_dict(table));
+    let font = font_variant(&mut doc, table, variant);
+    let font_id = doc.add_object(font);
     let mut fonts = Dictionary::new();
     fonts.set("F1", Object::Reference(font_id));
     let mut res = Dictionary::new();
@@ -560,16 +714,10 @@ fn text_doc(table: &str, blocks: &[Block], compress: bool) -> Document {
     let resources_id = doc.add_object(res);
     let mut ops = vec![];
     for b in blocks {
-        let fmt = if b.hex { StringFormat::Hexadecimal } else { StringFormat::Literal };
-        let s = Object::String(b.bytes.clone(), fmt);
         ops.push(Operation::new("BT", vec![]));
         ops.push(Operation::new("Tf", vec![Object::Name(b"F1".to_vec()), Object::Integer(12)]));
         ops.push(Operation::new("Td", vec![Object::Integer(100), Object::Integer(600)]));
-        if b.tj_array {
-            ops.push(Operation::new("TJ", vec![Object::Array(vec![s])]));
-        } else {
-            ops.push(Operation::new("Tj", vec![s]));
-        }
+        ops.push(show_operation(b));
         ops.push(Operation::new("ET", vec![]));
     }
     let content = Content { operations: ops }.encode().expect("encode");
@@ -626,11 +774,15 @@ fn extract(doc: &Document) -> Result<String, String> {
 
 /// Returns (number of extract_text executions, first failure).
 fn check_extraction(table: &str, blocks: &[Block], compress: bool) -> (u64, Option<String>) {
+    check_extraction_v(table, "plain", blocks, compress)
+}
+
+fn check_extraction_v(table: &str, variant: &str, blocks: &[Block], compress: bool) -> (u64, Option<String>) {
     let want = match expected_extraction(table, blocks) {
         Ok(w) => w,
         Err(m) => return (0, Some(m)),
     };
-    let doc = text_doc(table, blocks, compress);
+    let doc = text_doc(table, variant, blocks, compress);
     let mut n = 0;
     let stages: [(&str, Option<bool>); 3] = [("built document", None), ("after save (table) + load", Some(true)), ("after save (stream) + load", Some(false))];
     for (label, fmt) in stages {
@@ -641,23 +793,44 @@ fn check_extraction(table: &str, blocks: &[Block], compress: bool) -> (u64, Opti
                 Err(e) => return (n, Some(format!("{}: {}", label, e))),
             },
         };
-        n += 1;
-        match extract(&d) {
-            Err(e) => return (n, Some(format!("{}: {}", label, e))),
-            Ok(got) if got != want => {
-                return (n, Some(format!("{}: extracted {:?} = {:x?}, expected {:?} = {:x?}", label, trunc(&got), trunc_sc(&got), trunc(&want), trunc_sc(&want))))
+        // twice on the same document: the second call returns what the first did
+        for call in ["", ", second call"] {
+            n += 1;
+            match extract(&d) {
+                Err(e) => return (n, Some(format!("{}{}: {}", label, call, e))),
+                Ok(got) if got != want => return (n, Some(format!("{}{}: {}", label, call, diff_text(&got, &want)))),
+                Ok(_) => {}
             }
-            Ok(_) => {}
+        }
+        // the sibling entry point: the chunks of extract_text_chunks, joined
+        n += 1;
+        match util::guard(|| d.extract_text_chunks(&[1])) {
+            Err(p) => return (n, Some(format!("{}: extract_text_chunks {}", label, p))),
+            Ok(chunks) => {
+                let mut joined = String::new();
+                for c in chunks {
+                    match c {
+                        Ok(t) => joined.push_str(&t),
+                        Err(e) => return (n, Some(format!("{}: extract_text_chunks returned an error chunk: {}", label, e))),
+                    }
+                }
+                if joined != want {
+                    return (n, Some(format!("{}: extract_text_chunks joined: {}", label, diff_text(&joined, &want))));
+                }
+            }
         }
     }
     (n, None)
 }
 
-fn trunc(s: &str) -> String {
-    s.chars().take(40).collect()
-}
-fn trunc_sc(s: &str) -> Vec<u32> {
-    s.chars().take(40).map(|c| c as u32).collect()
+/// Where two texts first differ, with a little context (texts may be long).
+fn diff_text(got: &str, want: &str) -> String {
+    let (g, w): (Vec<char>, Vec<char>) = (got.chars().collect(), want.chars().collect());
+    let at = g.iter().zip(w.iter()).position(|(a, b)| a != b).unwrap_or(g.len().min(w.len()));
+    let lo = at.saturating_sub(4);
+    let gs: String = g[lo..(at + 12).min(g.len())].iter().collect();
+    let ws: String = w[lo..(at + 12).min(w.len())].iter().collect();
+    format!("extracted {} characters, expected {}; first difference at character {}: got ..{:?} = {:x?}, expected ..{:?} = {:x?}", g.len(), w.len(), at, gs, scalars_of(&gs), ws, scalars_of(&ws))
 }
 
 fn run_extraction(run: &Run, part: &str, table: &str, blocks: &[Block], compress: bool) {
@@ -679,7 +852,7 @@ fn part_extraction(run: &Run, repertoires: &[(String, Vec<u8>)]) {
     for (ti, (_, rep)) in repertoires.iter().enumerate() {
         for &b in rep {
             for (tj_array, hexs) in [(false, false), (false, true), (true, false)] {
-                singles.push((ti, Block { bytes: vec![b], tj_array, hex: hexs }));
+                singles.push((ti, Block { bytes: vec![b], tj_array, hex: hexs, pieces: 0 }));
             }
         }
     }
@@ -698,7 +871,15 @@ fn part_extraction(run: &Run, repertoires: &[(String, Vec<u8>)]) {
     for (ti, (_, rep)) in repertoires.iter().enumerate() {
         for (tj_array, hexs) in [(false, false), (false, true), (true, false), (true, true)] {
             for compress in [false, true] {
-                whole.push((ti, Block { bytes: rep.clone(), tj_array, hex: hexs }, compress));
+                whole.push((ti, Block { bytes: rep.clone(), tj_array, hex: hexs, pieces: 0 }, compress));
+            }
+        }
+    }
+    // the whole repertoire as one TJ array of several strings with small adjustments between them
+    for (ti, (_, rep)) in repertoires.iter().enumerate() {
+        for pieces in [2usize, 5, rep.len()] {
+            for hexs in [false, true] {
+                whole.push((ti, Block { bytes: rep.clone(), tj_array: true, hex: hexs, pieces }, pieces % 2 == 0));
             }
         }
     }
@@ -721,7 +902,7 @@ fn part_extraction(run: &Run, repertoires: &[(String, Vec<u8>)]) {
     util::par_for(firsts.len(), |i| {
         let (ti, a) = firsts[i];
         let rep = &repertoires[ti].1;
-        let blocks: Vec<Block> = rep.iter().enumerate().map(|(k, &b)| Block { bytes: vec![a, b], tj_array: k % 3 == 2, hex: k % 2 == 1 }).collect();
+        let blocks: Vec<Block> = rep.iter().enumerate().map(|(k, &b)| Block { bytes: vec![a, b], tj_array: k % 3 == 2, hex: k % 2 == 1, pieces: 0 }).collect();
         pairs.fetch_add(blocks.len() as u64, Ordering::Relaxed);
         run_extraction(run, "pairs", &repertoires[ti].0, &blocks, i % 2 == 0);
     });
@@ -756,16 +937,10 @@ fn pages_from_json(v: &Value) -> Vec<PageSpec> {
 fn content_of(blocks: &[Block]) -> Vec<u8> {
     let mut ops = vec![];
     for b in blocks {
-        let fmt = if b.hex { StringFormat::Hexadecimal } else { StringFormat::Literal };
-        let s = Object::String(b.bytes.clone(), fmt);
         ops.push(Operation::new("BT", vec![]));
         ops.push(Operation::new("Tf", vec![Object::Name(b"F1".to_vec()), Object::Integer(12)]));
         ops.push(Operation::new("Td", vec![Object::Integer(100), Object::Integer(600)]));
-        if b.tj_array {
-            ops.push(Operation::new("TJ", vec![Object::Array(vec![s])]));
-        } else {
-            ops.push(Operation::new("Tj", vec![s]));
-        }
+        ops.push(show_operation(b));
         ops.push(Operation::new("ET", vec![]));
     }
     Content { operations: ops }.encode().expect("encode")
@@ -896,10 +1071,10 @@ fn part_multipage(run: &Run, repertoires: &[(String, Vec<u8>)]) {
         let mut blocks = vec![];
         let d = differing(a, other);
         if !d.is_empty() {
-            blocks.push(Block { bytes: d.clone(), tj_array: false, hex: false });
-            blocks.push(Block { bytes: d, tj_array: true, hex: true });
+            blocks.push(Block { bytes: d.clone(), tj_array: false, hex: false, pieces: 0 });
+            blocks.push(Block { bytes: d, tj_array: true, hex: true, pieces: 0 });
         }
-        blocks.push(Block { bytes: repertoires[a].1.clone(), tj_array: false, hex: false });
+        blocks.push(Block { bytes: repertoires[a].1.clone(), tj_array: false, hex: false, pieces: 0 });
         PageSpec { table: repertoires[a].0.clone(), blocks }
     };
     let n = repertoires.len();
@@ -943,6 +1118,541 @@ fn part_multipage(run: &Run, repertoires: &[(String, Vec<u8>)]) {
 }
 
 // ---------------------------------------------------------------------------------------------
+// (a') long text strings: a decoder that works in blocks must not care where a block ends
+
+/// `lead` copies of `filler`, then `mid`, then `tail`; or (when `period` > 0) `lead` characters of
+/// which every `period`-th (counting from `shift`) is U+1F600 and the others are `filler`.
+#[derive(Clone, Debug)]
+struct LongText {
+    filler: u32,
+    lead: usize,
+    mid: Vec<u32>,
+    tail: Vec<u32>,
+    period: usize,
+    shift: usize,
+}
+
+const ASTRAL: u32 = 0x1f600;
+
+impl LongText {
+    fn text(&self) -> String {
+        let f = char::from_u32(self.filler).unwrap_or('A');
+        let mut s = String::with_capacity(self.lead * 4 + 16);
+        if self.period > 0 {
+            for i in 0..self.lead {
+                s.push(if (i + self.shift) % self.period == 0 { char::from_u32(ASTRAL).unwrap() } else { f });
+            }
+        } else {
+            for _ in 0..self.lead {
+                s.push(f);
+            }
+        }
+        s.push_str(&string_of(&self.mid));
+        s.push_str(&string_of(&self.tail));
+        s
+    }
+    fn to_json(&self) -> Value {
+        json!({"filler": self.filler, "lead": self.lead, "mid": self.mid, "tail": self.tail, "period": self.period, "shift": self.shift})
+    }
+    fn from_json(v: &Value) -> LongText {
+        let list = |x: &Value| -> Vec<u32> { x.as_array().map(|a| a.iter().map(|c| c.as_u64().unwrap_or(0x41) as u32).collect()).unwrap_or_default() };
+        LongText {
+            filler: v["filler"].as_u64().unwrap_or(0x41) as u32,
+            lead: v["lead"].as_u64().unwrap_or(0) as usize,
+            mid: list(&v["mid"]),
+            tail: list(&v["tail"]),
+            period: v["period"].as_u64().unwrap_or(0) as usize,
+            shift: v["shift"].as_u64().unwrap_or(0) as usize,
+        }
+    }
+    fn label(&self) -> String {
+        if self.period > 0 {
+            format!("{} characters, U+{:04X} with U+1F600 at every {}th position (from {}), then {:x?}", self.lead, self.filler, self.period, self.shift, self.tail)
+        } else {
+            format!("{} x U+{:04X}, then {:x?}, then {:x?}", self.lead, self.filler, self.mid, self.tail)
+        }
+    }
+}
+
+const VIAS: [&str; 3] = ["text_string", "utf16", "utf8"];
+
+fn report_long(run: &Run, part: &str, lt: &LongText, via: &str, msg: &str) {
+    let units = lt.text().encode_utf16().count();
+    run.fail(
+        None,
+        json!({"kind": "longtext", "part": part, "via": via, "long": lt.to_json(), "utf16_units": units, "utf8_bytes": lt.text().len()}),
+        &format!("{} ({} UTF-16 units, {} UTF-8 bytes): {}", lt.label(), units, lt.text().len(), vharness::run::truncate(msg, 300)),
+        match via {
+            "text_string" => EXPECT_TEXT,
+            "utf16" => "decode_text_string(String(encode_utf16_be(s))) == s",
+            _ => "decode_text_string(String(encode_utf8(s))) == s",
+        },
+    );
+}
+
+fn boundary_lengths(max_k: u32) -> Vec<usize> {
+    let mut v = vec![];
+    for k in 7..=max_k {
+        let p = 1usize << k;
+        for n in p - 4..=p + 4 {
+            v.push(n);
+        }
+    }
+    v
+}
+
+fn part_long_text(run: &Run) {
+    let fillers: [u32; 3] = [0x41, 0xe9, 0x4e2d]; // 1, 2 and 3 bytes in UTF-8; one UTF-16 unit each
+    let tails: [Vec<u32>; 3] = [vec![], vec![0x7a], vec![ASTRAL, 0xe9]];
+    let sweep = if run.thorough { 8300 } else { 2100 };
+    let max_k = if run.thorough { 17 } else { 13 };
+    let mut list: Vec<LongText> = vec![];
+    for &filler in &fillers {
+        // every lead length: the astral character starts at every offset of every block size below the bound
+        for lead in 0..sweep {
+            for tail in &tails {
+                list.push(LongText { filler, lead, mid: vec![ASTRAL], tail: tail.clone(), period: 0, shift: 0 });
+            }
+            // no astral character at all: the plain long string
+            list.push(LongText { filler, lead, mid: vec![], tail: vec![0xe9], period: 0, shift: 0 });
+        }
+        for lead in boundary_lengths(max_k) {
+            if lead >= sweep {
+                list.push(LongText { filler, lead, mid: vec![ASTRAL], tail: vec![0x7a], period: 0, shift: 0 });
+                list.push(LongText { filler, lead, mid: vec![0xffff, ASTRAL, ASTRAL], tail: vec![], period: 0, shift: 0 });
+            }
+        }
+        // astral characters at many offsets of one string
+        for lead in boundary_lengths(12).into_iter().chain([0, 1, 2, 3, 1500, 2047, 2049]) {
+            for period in [1usize, 2, 3, 7, 255, 256, 257, 511, 512, 513] {
+                for shift in 0..2 {
+                    list.push(LongText { filler, lead, mid: vec![], tail: vec![0xe9], period, shift });
+                }
+            }
+        }
+    }
+    let chunk = 64;
+    util::par_for(list.len().div_ceil(chunk), |c| {
+        for lt in &list[c * chunk..((c + 1) * chunk).min(list.len())] {
+            let s = lt.text();
+            for via in VIAS {
+                if let Some(m) = check_text(&s, via) {
+                    report_long(run, "long_text", lt, via, &m);
+                }
+            }
+        }
+    });
+    run.eval(list.len() as u64 * 3);
+    run.nontrivial(list.len() as u64 * 3);
+    run.add("long_text_strings", list.len() as u64);
+    run.set("long_text", json!({"fillers": fillers, "lead_lengths": format!("every n in 0..{} and 2^k-4..2^k+4 for k = 7..{}", sweep, max_k),
+                                "shapes": "filler^n + U+1F600 + tail (3 tails); filler^n + U+00E9; periodic U+1F600 (periods 1,2,3,7,255..257,511..513, two shifts)", "encoders": VIAS}));
+    run.sample(json!({"part": "a-long", "long": list[list.len() / 2].to_json(), "label": list[list.len() / 2].label()}));
+}
+
+/// Totality on long marked byte strings: odd lengths and unpaired surrogates at every offset of
+/// the block sizes: Ok or Err, never a panic.
+fn part_long_totality(run: &Run) {
+    let sweep = if run.thorough { 4200 } else { 2100 };
+    let n = AtomicU64::new(0);
+    util::par_for(sweep, |lead| {
+        let mut base = vec![0xfe, 0xff];
+        for _ in 0..lead {
+            base.extend_from_slice(&[0x00, 0xe9]);
+        }
+        let tails: [&[u8]; 6] = [&[0xd8], &[0xd8, 0x3d], &[0xdc, 0x00], &[0xd8, 0x3d, 0xde], &[0xd8, 0x3d, 0x00, 0x41], &[0xdc, 0x00, 0xd8, 0x3d]];
+        for t in tails {
+            let mut b = base.clone();
+            b.extend_from_slice(t);
+            let obj = Object::String(b.clone(), StringFormat::Hexadecimal);
+            n.fetch_add(1, Ordering::Relaxed);
+            if let Err(p) = util::guard(|| decode_text_string(&obj)) {
+                run.fail(None, json!({"kind": "longbytes", "part": "long_totality", "units_00e9": lead, "tail": hex(t)}), &format!("decode_text_string {}", p), "decode_text_string returns Ok or Err on every byte string (no panic)");
+            }
+        }
+    });
+    run.eval(n.load(Ordering::Relaxed));
+    run.nontrivial(n.load(Ordering::Relaxed));
+    run.add("long_totality_byte_strings", n.load(Ordering::Relaxed));
+}
+
+/// Run `f` on a thread that has never run anything else.
+fn on_fresh_thread<T: Send>(f: impl FnOnce() -> T + Send) -> T {
+    std::thread::scope(|s| {
+        std::thread::Builder::new().stack_size(16 << 20).spawn_scoped(s, f).expect("spawn").join().unwrap_or_else(|_| {
+            eprintln!("MACHINERY: helper thread panicked");
+            std::process::exit(3)
+        })
+    })
+}
+
+/// State kept between calls: decoding one string, then round-tripping another on the same
+/// (otherwise unused) thread. First strings include ones the decoder rejects.
+fn seq_first_menu() -> Vec<Vec<u8>> {
+    let ts = |s: &str| match text_string(s) {
+        Object::String(b, _) => b,
+        _ => vec![],
+    };
+    let rep = |c: char, n: usize| -> String { std::iter::repeat(c).take(n).collect() };
+    let mut lone_high_at_block_end = utf16be(&rep('\u{e9}', 511));
+    lone_high_at_block_end.extend_from_slice(&[0xd8, 0x3d]);
+    let mut odd = utf16be(&rep('\u{e9}', 700));
+    odd.push(0xd8);
+    let mut bad_utf8 = vec![0xef, 0xbb, 0xbf];
+    bad_utf8.extend_from_slice(&[b'a', 0xf0, 0x9f]);
+    vec![
+        vec![],
+        ts("A"),
+        ts("\u{e9}"),
+        ts("\u{1f600}"),
+        ts(&rep('A', 600)),
+        ts(&format!("{}\u{1f600}", rep('\u{e9}', 511))),
+        ts(&format!("{}\u{1f600}z", rep('\u{4e2d}', 1023))),
+        ts(&rep('\u{1f600}', 700)),
+        encode_utf8(&format!("{}\u{1f600}", rep('\u{e9}', 2047))),
+        vec![0xfe, 0xff, 0xd8, 0x00],
+        vec![0xfe, 0xff, 0xdc, 0x00, 0x00],
+        lone_high_at_block_end,
+        odd,
+        bad_utf8,
+    ]
+}
+
+fn seq_second_menu() -> Vec<LongText> {
+    let lt = |filler: u32, lead: usize, mid: Vec<u32>, tail: Vec<u32>| LongText { filler, lead, mid, tail, period: 0, shift: 0 };
+    vec![
+        lt(0x41, 0, vec![], vec![]),
+        lt(0x41, 1, vec![], vec![]),
+        lt(0xe9, 1, vec![], vec![]),
+        lt(0x41, 0, vec![ASTRAL], vec![]),
+        lt(0xe9, 3, vec![ASTRAL], vec![0x7a]),
+        lt(0xe9, 510, vec![ASTRAL], vec![0x7a]),
+        lt(0xe9, 511, vec![ASTRAL], vec![]),
+        lt(0x4e2d, 600, vec![ASTRAL], vec![0xe9]),
+        lt(0x41, 300, vec![], vec![]),
+    ]
+}
+
+fn check_text_seq(first: &[u8], second: &str, via: &str) -> Option<String> {
+    on_fresh_thread(|| {
+        let obj = Object::String(first.to_vec(), StringFormat::Hexadecimal);
+        let _ = util::guard(|| decode_text_string(&obj));
+        check_text(second, via)
+    })
+}
+
+fn part_text_sequences(run: &Run) {
+    let firsts = seq_first_menu();
+    let seconds = seq_second_menu();
+    let mut cases = vec![];
+    for f in 0..firsts.len() {
+        for s in 0..seconds.len() {
+            for via in VIAS {
+                cases.push((f, s, via));
+            }
+        }
+    }
+    util::par_for(cases.len(), |i| {
+        let (f, s, via) = cases[i];
+        let text = seconds[s].text();
+        if let Some(m) = check_text_seq(&firsts[f], &text, via) {
+            run.fail(
+                None,
+                json!({"kind": "text_seq", "part": "text_sequences", "first_bytes": hex(&firsts[f]), "second": seconds[s].to_json(), "via": via}),
+                &format!("after decode_text_string of a {}-byte string ({}..) on the same thread: {}: {}", firsts[f].len(), hex(&firsts[f][..firsts[f].len().min(8)]), seconds[s].label(), vharness::run::truncate(&m, 300)),
+                "decode_text_string(text_string(s)) == s whatever was decoded before on the same thread",
+            );
+        }
+    });
+    run.eval(cases.len() as u64 * 2);
+    run.nontrivial(cases.len() as u64);
+    run.add("text_sequence_cases", cases.len() as u64);
+}
+
+// ---------------------------------------------------------------------------------------------
+// (b') long byte strings through the tables
+
+/// `lead` copies of byte `filler`, then `mid`, then `tail`; or (cycle) the 256 byte values
+/// repeated from `filler` on up to length `lead`.
+#[derive(Clone, Debug)]
+struct LongBytes {
+    filler: u8,
+    lead: usize,
+    mid: Vec<u8>,
+    tail: Vec<u8>,
+    cycle: bool,
+}
+
+impl LongBytes {
+    fn bytes(&self) -> Vec<u8> {
+        let mut b: Vec<u8> = if self.cycle { (0..self.lead).map(|i| (i + self.filler as usize) as u8).collect() } else { vec![self.filler; self.lead] };
+        b.extend_from_slice(&self.mid);
+        b.extend_from_slice(&self.tail);
+        b
+    }
+    fn to_json(&self) -> Value {
+        json!({"filler": self.filler, "lead": self.lead, "mid": hex(&self.mid), "tail": hex(&self.tail), "cycle": self.cycle})
+    }
+    fn from_json(v: &Value) -> LongBytes {
+        LongBytes {
+            filler: v["filler"].as_u64().unwrap_or(0x41) as u8,
+            lead: v["lead"].as_u64().unwrap_or(0) as usize,
+            mid: unhex(v["mid"].as_str().unwrap_or("")),
+            tail: unhex(v["tail"].as_str().unwrap_or("")),
+            cycle: v["cycle"].as_bool().unwrap_or(false),
+        }
+    }
+}
+
+/// decode(bytes) is the concatenation of what each byte decodes to alone (a one-byte encoding);
+/// re-encoding gives bytes that decode to the same text; Encoding::bytes_to_string /
+/// string_to_bytes agree with Document::decode_text / encode_text.
+fn check_long_bytes(table: &str, lb: &LongBytes) -> Option<String> {
+    let bytes = lb.bytes();
+    let r = with_encoding(table, |enc| {
+        let mut want = String::new();
+        let mut memo: Vec<Option<String>> = vec![None; 256];
+        for &b in &bytes {
+            if memo[b as usize].is_none() {
+                memo[b as usize] = Some(dec(enc, &[b])?);
+            }
+            want.push_str(memo[b as usize].as_ref().unwrap());
+        }
+        let d = dec(enc, &bytes)?;
+        if d != want {
+            return Err(format!("decode of {} bytes: {}", bytes.len(), diff_text(&d, &want).replace("extracted", "decoded")));
+        }
+        match util::guard(|| enc.bytes_to_string(&bytes)) {
+            Ok(Ok(d2)) if d2 == d => {}
+            Ok(Ok(d2)) => return Err(format!("Encoding::bytes_to_string differs from Document::decode_text: {}", diff_text(&d2, &d))),
+            Ok(Err(e)) => return Err(format!("Encoding::bytes_to_string error: {}", e)),
+            Err(p) => return Err(format!("Encoding::bytes_to_string {}", p)),
+        }
+        let e = enc_text(enc, &d)?;
+        let d3 = dec(enc, &e)?;
+        if d3 != d {
+            return Err(format!("decode({} bytes) re-encoded to {} bytes which decode differently: {}", bytes.len(), e.len(), diff_text(&d3, &d).replace("extracted", "decoded")));
+        }
+        match util::guard(|| enc.string_to_bytes(&d)) {
+            Ok(e2) if e2 == e => {}
+            Ok(e2) => return Err(format!("Encoding::string_to_bytes gives {} bytes, Document::encode_text {} bytes", e2.len(), e.len())),
+            Err(p) => return Err(format!("Encoding::string_to_bytes {}", p)),
+        }
+        Ok(())
+    });
+    match r {
+        Ok(Ok(())) => None,
+        Ok(Err(m)) | Err(m) => Some(m),
+    }
+}
+
+fn part_long_tables(run: &Run, repertoires: &[(String, Vec<u8>)]) {
+    let sweep = if run.thorough { 8300 } else { 2100 };
+    let mut cases: Vec<(usize, LongBytes)> = vec![];
+    for (ti, (table, rep)) in repertoires.iter().enumerate() {
+        // one repertoire byte per UTF-8 length class of its character (1, 2, 3 bytes), lowest byte first
+        let cells = table_cells(table);
+        let mut classes: Vec<u8> = vec![];
+        for len in 1..=3 {
+            if let Some((b, _)) = cells.iter().find(|(b, u)| rep.contains(b) && char::from_u32(*u as u32).map(|c| c.len_utf8()) == Some(len) && *b >= 0x21) {
+                classes.push(*b);
+            }
+        }
+        // a byte outside the repertoire (decodes to nothing), if the table has one
+        let hole: Option<u8> = (0..=255u8).rev().find(|b| !rep.contains(b));
+        for &filler in &classes {
+            for &special in &classes {
+                for lead in 0..sweep {
+                    cases.push((ti, LongBytes { filler, lead, mid: vec![special], tail: vec![filler], cycle: false }));
+                }
+            }
+            if let Some(h) = hole {
+                for lead in 0..sweep {
+                    cases.push((ti, LongBytes { filler, lead, mid: vec![h, classes[classes.len() - 1]], tail: vec![], cycle: false }));
+                }
+            }
+        }
+        for lead in boundary_lengths(if run.thorough { 18 } else { 16 }) {
+            for start in [0u8, 0x80] {
+                cases.push((ti, LongBytes { filler: start, lead, mid: vec![], tail: vec![], cycle: true }));
+            }
+        }
+    }
+    let chunk = 64;
+    util::par_for(cases.len().div_ceil(chunk), |c| {
+        for (ti, lb) in &cases[c * chunk..((c + 1) * chunk).min(cases.len())] {
+            if let Some(m) = check_long_bytes(&repertoires[*ti].0, lb) {
+                run.fail(
+                    None,
+                    json!({"kind": "longcell", "part": "long_tables", "table": repertoires[*ti].0, "long": lb.to_json()}),
+                    &format!("{}: {} x {:02X} + {} + {}{}: {}", repertoires[*ti].0, lb.lead, lb.filler, hex(&lb.mid), hex(&lb.tail), if lb.cycle { " (cycle)" } else { "" }, m),
+                    "decode(bytes) == the concatenation of the single-byte decodings; decode(encode(decode(bytes))) == decode(bytes); Encoding::bytes_to_string / string_to_bytes agree with Document::decode_text / encode_text",
+                );
+            }
+        }
+    });
+    run.eval(cases.len() as u64 * 4);
+    run.nontrivial(cases.len() as u64);
+    run.add("long_table_byte_strings", cases.len() as u64);
+    run.set("long_tables", json!({"lead_lengths": format!("every n in 0..{}; cycles of all byte values at 2^k-4..2^k+4, k = 7..{}", sweep, if run.thorough { 18 } else { 16 }),
+                                  "fillers_and_specials": "one repertoire byte per UTF-8 length class (1, 2, 3 bytes) of its character, every ordered pair; a byte outside the repertoire followed by a mapped byte"}));
+    if let Some((ti, lb)) = cases.get(cases.len() / 2) {
+        run.sample(json!({"part": "b-long", "table": repertoires[*ti].0, "long": lb.to_json()}));
+    }
+}
+
+// ---------------------------------------------------------------------------------------------
+// (c'') extraction: long strings, many groups, font variants, documents one after the other
+
+fn run_extraction_v(run: &Run, part: &str, table: &str, variant: &str, blocks: &[Block], compress: bool) {
+    let (n, r) = check_extraction_v(table, variant, blocks, compress);
+    run.eval(n);
+    if let Some(m) = r {
+        run.fail(
+            None,
+            json!({"kind": "extract", "part": part, "table": table, "font": variant, "blocks": blocks_to_json(blocks), "compress": compress}),
+            &format!("font {} ({}): {}", table, variant, m),
+            "extract_text(&[1]) == decoded text of every shown string + the space after a TJ array + the line feed at ET",
+        );
+    }
+}
+
+fn part_long_extraction(run: &Run, repertoires: &[(String, Vec<u8>)]) {
+    let lens: Vec<usize> = if run.thorough { boundary_lengths(17) } else { vec![255, 256, 257, 511, 512, 513, 1023, 1024, 1025, 4095, 4096, 4097, 65535, 65537] };
+    let mut docs: Vec<(usize, Vec<Block>, bool)> = vec![];
+    for (ti, (_, rep)) in repertoires.iter().enumerate() {
+        for (k, &n) in lens.iter().enumerate() {
+            let bytes: Vec<u8> = (0..n).map(|i| rep[(i * 7 + k) % rep.len()]).collect();
+            docs.push((ti, vec![Block { bytes, tj_array: k % 2 == 1, hex: k % 3 == 0, pieces: [0, 3, 64, 1000][(k / 2) % 4] }], k % 2 == 0));
+        }
+        // many groups on one page
+        let many: Vec<Block> = (0..1000).map(|i| Block { bytes: vec![rep[i % rep.len()], rep[(i / 3) % rep.len()]], tj_array: i % 3 == 2, hex: i % 2 == 1, pieces: 0 }).collect();
+        docs.push((ti, many, ti % 2 == 0));
+    }
+    util::par_for(docs.len(), |i| {
+        let (ti, blocks, compress) = &docs[i];
+        run_extraction_v(run, "long_extraction", &repertoires[*ti].0, "plain", blocks, *compress);
+    });
+    run.nontrivial(docs.len() as u64);
+    run.add("extraction_docs", docs.len() as u64);
+    run.add("long_extraction_docs", docs.len() as u64);
+    run.set("long_extraction_lengths", json!(lens));
+}
+
+/// Fonts that name a predefined encoding and carry further entries (widths and descriptor, or a
+/// /ToUnicode CMap that agrees with the encoding on every code it lists, complete or partial):
+/// the text shown with the encoding is what the table says, for every repertoire byte.
+fn part_font_variants(run: &Run, repertoires: &[(String, Vec<u8>)]) {
+    let mut cases: Vec<(usize, &'static str)> = vec![];
+    for ti in 0..repertoires.len() {
+        for v in FONT_VARIANTS {
+            if v != "plain" {
+                cases.push((ti, v));
+            }
+        }
+    }
+    let listed = std::sync::Mutex::new(serde_json::Map::new());
+    util::par_for(cases.len(), |i| {
+        let (ti, variant) = cases[i];
+        let (table, rep) = &repertoires[ti];
+        if let Some(p) = variant_pairs(table, variant) {
+            listed.lock().unwrap().insert(format!("{} {}", table, variant), json!(p.len()));
+        }
+        // through get_font_encoding + decode_text: every repertoire byte alone and all together
+        let mut inputs: Vec<Vec<u8>> = rep.iter().map(|b| vec![*b]).collect();
+        inputs.push(rep.clone());
+        inputs.push(rep.iter().rev().cloned().collect());
+        for b in &inputs {
+            run.eval(1);
+            let want = match dec_variant(table, "plain", b) {
+                Ok(w) => w,
+                Err(m) => {
+                    run.fail(None, json!({"kind": "fontcell", "part": "font_variants", "table": table, "font": "plain", "bytes": hex(b)}), &m, "decoding with a predefined table never fails");
+                    continue;
+                }
+            };
+            let got = dec_variant(table, variant, b);
+            if got.as_ref() != Ok(&want) {
+                let m = match got {
+                    Ok(g) => format!("bytes {}: {}", vharness::run::truncate(&hex(b), 40), diff_text(&g, &want).replace("extracted", "decoded")),
+                    Err(e) => e,
+                };
+                run.fail(
+                    None,
+                    json!({"kind": "fontcell", "part": "font_variants", "table": table, "font": variant, "bytes": hex(b)}),
+                    &format!("font with /Encoding /{} ({}): {}", table, variant, m),
+                    "text shown with a predefined encoding decodes as the table says; entries of the font that agree with the table (a consistent /ToUnicode, complete or partial) or do not concern text (widths, descriptor) do not change it",
+                );
+                // one report per font: the other codes fail the same way
+                break;
+            }
+        }
+        // through extract_text, before and after save + load
+        let singles: Vec<Block> = rep.iter().enumerate().map(|(k, &b)| Block { bytes: vec![b], tj_array: k % 3 == 2, hex: k % 2 == 1, pieces: 0 }).collect();
+        let whole = vec![Block { bytes: rep.clone(), tj_array: false, hex: false, pieces: 0 }, Block { bytes: rep.clone(), tj_array: true, hex: true, pieces: 0 }];
+        run_extraction_v(run, "font_variants", table, variant, &singles, i % 2 == 0);
+        run_extraction_v(run, "font_variants", table, variant, &whole, i % 2 == 1);
+    });
+    run.nontrivial(cases.len() as u64 * 3);
+    run.add("extraction_docs", cases.len() as u64 * 2);
+    run.add("font_variant_cases", cases.len() as u64);
+    run.set("font_variants", json!({"variants": FONT_VARIANTS, "codes_listed_by_the_tounicode_cmap": Value::Object(listed.into_inner().unwrap())}));
+    let (t0, r0) = &repertoires[0];
+    run.sample(json!({"part": "c-font-variants", "table": t0, "font": "tounicode_digits_or_first10", "repertoire_bytes": r0.len(),
+                      "tounicode": String::from_utf8_lossy(&to_unicode_cmap(&variant_pairs(t0, "tounicode_digits_or_first10").unwrap_or_default(), false))}));
+}
+
+/// Documents extracted one after the other on one (otherwise unused) thread: document A (font
+/// /F1 with table a), document B (font /F1 with table b), document A again.
+fn check_doc_sequence(tables: &[String], blocks_per: &[Vec<Block>]) -> Option<String> {
+    on_fresh_thread(|| {
+        let mut wants = vec![];
+        for (t, b) in tables.iter().zip(blocks_per) {
+            match expected_extraction(t, b) {
+                Ok(w) => wants.push(w),
+                Err(m) => return Some(m),
+            }
+        }
+        let docs: Vec<Document> = tables.iter().zip(blocks_per).map(|(t, b)| text_doc(t, "plain", b, false)).collect();
+        let order: Vec<usize> = (0..docs.len()).chain(0..docs.len()).collect();
+        for (step, &k) in order.iter().enumerate() {
+            match extract(&docs[k]) {
+                Err(e) => return Some(format!("step {} (document {} with {}): {}", step, k, tables[k], e)),
+                Ok(got) if got != wants[k] => return Some(format!("step {} (document {} with {}, after documents with {:?}): {}", step, k, tables[k], order[..step].iter().map(|j| tables[*j].as_str()).collect::<Vec<_>>(), diff_text(&got, &wants[k]))),
+                Ok(_) => {}
+            }
+        }
+        None
+    })
+}
+
+fn part_doc_sequences(run: &Run, repertoires: &[(String, Vec<u8>)]) {
+    let n = repertoires.len();
+    let mut cases = vec![];
+    for a in 0..n {
+        for b in 0..n {
+            cases.push(vec![a, b]);
+        }
+    }
+    cases.push((0..n).collect());
+    util::par_for(cases.len(), |i| {
+        let tables: Vec<String> = cases[i].iter().map(|t| repertoires[*t].0.clone()).collect();
+        let blocks: Vec<Vec<Block>> = cases[i].iter().map(|t| vec![Block { bytes: repertoires[*t].1.clone(), tj_array: false, hex: false, pieces: 0 }]).collect();
+        run.eval(2 * tables.len() as u64);
+        if let Some(m) = check_doc_sequence(&tables, &blocks) {
+            run.fail(
+                None,
+                json!({"kind": "docseq", "part": "doc_sequences", "tables": tables, "blocks": blocks.iter().map(|b| blocks_to_json(b)).collect::<Vec<_>>()}),
+                &m,
+                "extract_text of a document returns its text whatever documents were extracted before on the same thread",
+            );
+        }
+    });
+    run.nontrivial(cases.len() as u64);
+    run.add("document_sequence_cases", cases.len() as u64);
+}
+
+// ---------------------------------------------------------------------------------------------
 
 fn main() {
     let run = Run::from_args("C16", "exploration");
@@ -960,20 +1670,35 @@ fn main() {
          + whole repertoire + ordered pairs of repertoire bytes (thorough: all; quick: a seed-rotated slice) + multi-page documents \
          (every ordered pair of the five encodings and one five-page document, each page with its own Resources and a font named \
          /F1, showing the bytes the two tables decode differently and the whole repertoire, extracted in several page orders \
-         in one call); escape-shaped strings ESC w ESC, w over {a,Z,1,U+00E9}^k, k<=5, in 8 contexts. All cases \
+         in one call); escape-shaped strings ESC w ESC, w over {a,Z,1,U+00E9}^k, k<=5, in 8 contexts; long text strings (filler^n + \
+         U+1F600 + tail for every n below 2100 (thorough 8300) and around 2^k, three fillers of 1 / 2 / 3 UTF-8 bytes, periodic astral \
+         characters) x the three encoders; long marked byte strings ending in unpaired surrogates / half units (totality); pairs \
+         (string decoded first, string round-tripped next) on a thread of their own; long byte strings through each table (every \
+         lead length, every pair of UTF-8 length classes, cycles at 2^k); extraction of long strings and of 1000 groups; font \
+         variants (widths / descriptor, consistent complete and partial /ToUnicode) x table x every repertoire byte; documents \
+         extracted one after the other on one thread (every ordered pair of tables). All cases \
          count as non-trivial except totality strings over {00,41}; distinct by construction",
     );
     run.assume("the published tables are those written into this check: Microsoft cp1252 and Apple Mac OS Roman as shipped with Python's codecs, PDFDocEncoding per ISO 32000-1 Annex D.2; compared only on 0x20-0x7E and on the Latin-1 characters U+00A1-U+00FF; cells whose published value differs between the glyph-name and the code-page convention are excluded and listed under coverage.tables");
-    run.assume("extraction: the font dictionary has /Type /Font and /Encoding <name> only (no Differences, no ToUnicode); expected text = decoded text + what extract_text adds by construction (a space after each TJ array, a line feed at ET)");
+    run.assume("extraction: the font dictionary has /Type /Font, /Subtype, /BaseFont and /Encoding <name> (no Differences); the font-variant part adds entries that cannot change what the text is: FirstChar / LastChar / Widths / FontDescriptor, or a /ToUnicode CMap that agrees with the table on every code it lists (complete, or partial as producers write it for the glyphs used so far; a /ToUnicode that contradicts the table is not generated: which of the two wins is outside this property); expected text = decoded text + what extract_text adds by construction (a space after each TJ array, a line feed at ET)");
     run.assume("the tables are private to lopdf; they are read through Dictionary::get_font_encoding + Document::decode_text / encode_text");
     part_scalars(&run);
     part_strings(&run);
     part_escapes(&run);
     part_totality(&run);
+    part_long_text(&run);
+    part_long_totality(&run);
+    part_text_sequences(&run);
     let reps = part_tables(&run);
+    part_long_tables(&run, &reps);
     part_extraction(&run, &reps);
     part_multipage(&run, &reps);
-    run.set("exhaustive_parts", json!({"scalars": true, "strings": true, "totality": true, "table_cells": true, "extraction_single_bytes": true, "extraction_pairs": run.thorough}));
+    part_long_extraction(&run, &reps);
+    part_font_variants(&run, &reps);
+    part_doc_sequences(&run, &reps);
+    run.set("exhaustive_parts", json!({"scalars": true, "strings": true, "totality": true, "table_cells": true, "extraction_single_bytes": true, "extraction_pairs": run.thorough,
+                                       "long_text_every_lead_length_below_bound": true, "long_table_strings_every_lead_length_below_bound": true, "font_variants_x_tables_x_repertoire_bytes": true,
+                                       "text_sequences_menu_pairs": true, "document_sequences_ordered_table_pairs": true}));
     run.exhaustive(true);
     run.finish();
 }
@@ -998,6 +1723,56 @@ fn replay(run: &Run, path: &std::path::Path) -> ! {
                 }
                 Err(p) => Some(p),
             }
+        }
+        Some("longtext") => {
+            let lt = LongText::from_json(&case["long"]);
+            let via = case["via"].as_str().unwrap_or("text_string");
+            println!("text: {} via {}", lt.label(), via);
+            check_text(&lt.text(), via).map(|m| vharness::run::truncate(&m, 400))
+        }
+        Some("longbytes") => {
+            let mut b = vec![0xfe, 0xff];
+            for _ in 0..case["units_00e9"].as_u64().unwrap_or(0) {
+                b.extend_from_slice(&[0x00, 0xe9]);
+            }
+            b.extend_from_slice(&unhex(case["tail"].as_str().unwrap_or("")));
+            let obj = Object::String(b, StringFormat::Hexadecimal);
+            util::guard(|| decode_text_string(&obj)).err()
+        }
+        Some("text_seq") => {
+            let first = unhex(case["first_bytes"].as_str().unwrap_or(""));
+            let second = LongText::from_json(&case["second"]);
+            let via = case["via"].as_str().unwrap_or("text_string");
+            println!("first: {} bytes; then {} via {}", first.len(), second.label(), via);
+            let a = check_text_seq(&first, &second.text(), via);
+            let b = check_text_seq(&first, &second.text(), via);
+            if a != b {
+                eprintln!("MACHINERY: replay not deterministic");
+                std::process::exit(3);
+            }
+            a.map(|m| vharness::run::truncate(&m, 400))
+        }
+        Some("longcell") => check_long_bytes(case["table"].as_str().unwrap_or(""), &LongBytes::from_json(&case["long"])),
+        Some("fontcell") => {
+            let table = case["table"].as_str().unwrap_or("");
+            let variant = variant_of(case["font"].as_str().unwrap_or(""));
+            let b = unhex(case["bytes"].as_str().unwrap_or(""));
+            match (dec_variant(table, "plain", &b), dec_variant(table, variant, &b)) {
+                (Ok(w), Ok(g)) if w == g => None,
+                (Ok(w), Ok(g)) => Some(format!("font with /Encoding /{} ({}): {}", table, variant, diff_text(&g, &w).replace("extracted", "decoded"))),
+                (Err(e), _) | (_, Err(e)) => Some(e),
+            }
+        }
+        Some("docseq") => {
+            let tables: Vec<String> = case["tables"].as_array().map(|a| a.iter().map(|t| t.as_str().unwrap_or("").to_string()).collect()).unwrap_or_default();
+            let blocks: Vec<Vec<Block>> = case["blocks"].as_array().map(|a| a.iter().map(blocks_from_json).collect()).unwrap_or_default();
+            let a = check_doc_sequence(&tables, &blocks);
+            let b = check_doc_sequence(&tables, &blocks);
+            if a != b {
+                eprintln!("MACHINERY: replay not deterministic");
+                std::process::exit(3);
+            }
+            a
         }
         Some("cell") => check_cell(case["table"].as_str().unwrap_or(""), &unhex(case["bytes"].as_str().unwrap_or(""))),
         Some("published") => match case["scalar"].as_u64() {
@@ -1036,8 +1811,9 @@ fn replay(run: &Run, path: &std::path::Path) -> ! {
             let table = case["table"].as_str().unwrap_or("");
             let blocks = blocks_from_json(&case["blocks"]);
             let compress = case["compress"].as_bool().unwrap_or(false);
-            let a = check_extraction(table, &blocks, compress).1;
-            let b = check_extraction(table, &blocks, compress).1;
+            let variant = variant_of(case["font"].as_str().unwrap_or("plain"));
+            let a = check_extraction_v(table, variant, &blocks, compress).1;
+            let b = check_extraction_v(table, variant, &blocks, compress).1;
             if a != b {
                 eprintln!("MACHINERY: replay not deterministic: {:?} vs {:?}", a, b);
                 std::process::exit(3);
